@@ -81,6 +81,74 @@ def c06_custom(pid, tier, plan, scr, hbin, specdir):
     return cov, violations, known_hits
 
 
+def crash_variants(beh, cap, rng):
+    """All placements of one crash in a crash-free behaviour: after BeginBlock, after the k-th DeliverTx,
+    after EndBlock, after Commit - followed by Restart and the re-proposal of the interrupted block
+    (behaviours of MC_Abci's Crash / Restart / Replay actions)."""
+    out = []
+    last_commit = 0
+    points = []
+    for i, ev in enumerate(beh):
+        if ev["a"] == "Commit":
+            points.append((i, i))       # crash after Commit: nothing to replay
+            last_commit = i
+        elif ev["a"] in ("BeginBlock", "DeliverTx", "EndBlock"):
+            points.append((i, last_commit))
+    if len(points) > cap:
+        points = rng.sample(points, cap)
+    for p, lc in sorted(points):
+        replay = beh[lc + 1:p + 1] if p != lc else []
+        out.append(beh[:p + 1] + [{"a": "Crash"}, {"a": "Restart"}] + replay + beh[p + 1:])
+    return out
+
+
+def c01_custom(pid, tier, plan, scr, hbin, specdir):
+    import json, os, random
+    import vlib
+    from check_common import classify
+    sd = vlib.seed()
+    rng = random.Random(sd)
+    cov = dict(states=0, transitions=0, traces_validated_against_impl=0, samples=[], mc_runs=[], recordings=[],
+               steps_validated=0, notes=[], findings_other_properties=0, crash_points_executed=0, replicas=3)
+    mc = vlib.mc_exhaustive(specdir, "MC_Abci.tla", "MC_Abci_quick.cfg" if tier == "quick" else "MC_Abci_full.cfg", scr, workers=16, timeout=3000)
+    cov["mc_runs"].append(mc)
+    cov["states"] += mc["distinct"]
+    cov["transitions"] += mc["generated"]
+    recs = []
+
+    def twin(behs, name, source):
+        d = scr.sub(name)
+        inp, out = os.path.join(d, "behaviours.json"), os.path.join(d, "rec.ndjson")
+        json.dump(behs, open(inp, "w"))
+        vlib.harness(hbin, ["twin", "-in", inp, "-out", out], timeout=3000)
+        recs.append((out, source, len(behs)))
+        cov["crash_points_executed"] += sum(1 for b in behs for e in b if e["a"] == "Crash")
+
+    # (1) TLC-simulated behaviours of MC_Abci with the crash points TLC chose
+    behs = vlib.sim_schedules(specdir, "MC_Abci.tla", "MC_Abci_sim.cfg", scr, 30 if tier == "quick" else 200, 140, sd, procs=4 if tier == "quick" else 12)
+    if not behs:
+        raise vlib.Inconclusive("no behaviours from MC_Abci_sim (dead driver)")
+    cov["samples"].append(dict(source="tlc-simulate MC_Abci_sim.cfg", behaviour=[e for e in behs[0][1:20]]))
+    twin(behs, "twin-sim", "tlc-simulate:MC_Abci_sim.cfg on replicas A/B/C")
+    # (2) long mixed histories from the seeded random driver, every crash point of every block
+    nh, steps, cap = (2, 60, 30) if tier == "quick" else (12, 160, 400)
+    rec = vlib.record_random(hbin, "mix", sd, steps, nh, scr)
+    lines = [json.loads(l) for l in open(rec)]
+    hists, cur = [], []
+    for r in lines:
+        if r["a"] == "InitChain" and cur:
+            hists.append(cur)
+            cur = []
+        cur.append(r["args"])
+    hists.append(cur)
+    variants = []
+    for h in hists:
+        variants += crash_variants(h, cap, rng)
+    twin(variants, "twin-allpoints", "random mixed histories x every crash point on replicas A/B/C")
+    violations, known_hits = classify(pid, recs, cov, scr, specdir)
+    return cov, violations, known_hits
+
+
 PLANS = {
     "C03": dict(mc=ENT_MC, sim=ENT_SIM, random=rnd("ent", (300, 3), (2000, 20)),
                 rule="TLC exhaustive on MC_Ent (all interleavings of raise/decide/whitelist/gov param change/time advance in small scope); behaviours = TLC-simulated schedules + seeded random histories executed on the real app; non-trivial = a recorded step (one ABCI call) validated against Chain!Step and all C03 monitors",
@@ -111,6 +179,9 @@ PLANS = {
                 rule="as C10; view = deposit, last release time, deposit-zero time of every stream, claim responses; monitor Sustained", assumptions=COMMON_ASSUME),
     "C12": dict(mc=STR_MC, sim=STR_SIM, sweep=STR_SWEEP, random=rnd("str", (300, 3), (2000, 20)),
                 rule="as C10; monitors: a stream operation the specification accepts is not refused by the code, and no stream transaction panics", assumptions=COMMON_ASSUME),
+    "C01": dict(custom=c01_custom,
+                rule="TLC exhaustive on MC_Abci (Crash enabled in every phase, Restart from the durable state, re-proposal of the interrupted block; invariants RestartResumesCommitted, DurableAgreesWithReference); behaviours with TLC-chosen crash points and mixed random histories with EVERY crash point are executed on three real replicas (MemDB uninterrupted; goleveldb crashed/restarted with interleaved CheckTx and queries; separate process with GOMAXPROCS=1 started >1.1 s later); app hash at every height, every tx result (code, data, gas wanted/used), and height/hash/state right after each restart are compared by TLC monitors",
+                assumptions=COMMON_ASSUME + ["crashes are placed between ABCI calls (inside Commit the atomicity is the SDK/DB's)", "nondeterministic statements on paths no transaction reaches are not observable"]),
     "C06": dict(custom=c06_custom,
                 rule="TLC (MC_Adm) enumerates every CheckTx input of the bounded input space (message sequences x fee classes x extra denomination x payer classes x two fee presets) and checks meta-properties of the ideal admission rule; every enumerated input (quick: all singles + a seeded sample of pairs) is offered to the real app.CheckTx on a committed prepared state; violation = admitted by the code and refused by the ideal rule; non-trivial = a distinct input",
                 assumptions=COMMON_ASSUME + ["only the direction 'code admits and the ideal rule refuses' is a violation; the converse is logged as a note"]),
